@@ -14,7 +14,7 @@ THEOREMS = ["C10_catch_once", "C10_uncaught_stops", "C10_defers_rev_once", "C10_
             "C10_return_leaves_frame_clean", "C10_return_marker_old_refuted",
             "C10_step_preserves_shape", "C10_catch_preserves_shape", "C10_frame_pop_shape",
             "C10_exec_preserves_shape", "C10_dispatch_preserves_shape", "C10_run_u_is_run", "C10_run_preserves_shape",
-            "C10_return_preserves_shape", "C10_unwind_panic_preserves_shape"]
+            "C10_return_preserves_shape", "C10_unwind_panic_preserves_shape", "C10_try_marker_present_partial"]
 META = {
     "group": "VM",
     "technique": "Coq proofs over an executable model of the bytecode interpreter's try/catch, defer, panic/recover and "
@@ -48,7 +48,9 @@ META = {
             "which is flagged (underflow / run_u; the Go VM loses the shape there too). "
             "partial: the result-register clause of between_instructions is only preserved outside Return(true)-with-"
             "temporaries (never emitted by the compiler), and that compiled code keeps a try marker below every live try "
-            "entry is still observed by the correspondence, not proved; selective catch lists, named/multiple results, goroutines and the "
+            "entry is proved only for try blocks whose body is made of value-level instructions "
+            "(C10_try_marker_present_partial: Try a; Push marker; value instructions), for bodies with calls, nested try "
+            "blocks or other markers it is still observed by the correspondence, not proved; selective catch lists, named/multiple results, goroutines and the "
             "symbol-table visibility rules are outside the model",
     "note": "Trusted: Coq kernel; hand-written model coq/VM/Model.v tied to the code by the per-run correspondence; "
             "harness/C10 (dumper + in-package compile/run), lib/vm_util.py (translator dump->Coq, generator, reference).",
